@@ -158,6 +158,16 @@ class _NegateIf(ast.NodeTransformer):
         return n
 
 
+class _ReturnIfExp(ast.NodeTransformer):
+    """if c: return A else: return B  ->  return A if c else B"""
+
+    def visit_If(self, n):
+        self.generic_visit(n)
+        if len(n.body) == 1 and len(n.orelse) == 1 and isinstance(n.body[0], ast.Return) and isinstance(n.orelse[0], ast.Return) and n.body[0].value is not None and n.orelse[0].value is not None and not any(isinstance(x, ast.NamedExpr) for x in ast.walk(n.test)):
+            return ast.Return(value=ast.IfExp(test=n.test, body=n.body[0].value, orelse=n.orelse[0].value))
+        return n
+
+
 def transform(path: Path, cls):
     src = path.read_text()
     if not src.strip():
@@ -184,4 +194,6 @@ if __name__ == "__main__":
             transform(f, _AugExpand)
         elif mode == "negateif":
             transform(f, _NegateIf)
+        elif mode == "returnifexp":
+            transform(f, _ReturnIfExp)
     print(f"{mode}: done ({total} locals renamed)" if mode == "rename" else f"{mode}: done")
